@@ -16,15 +16,50 @@ obs:  mutating: nk= nr= nn= ck= rk= g=<Get per probe> f=<Get per probe on a fres
 import GoZero.Base.Trace
 import GoZero.C15.Hash
 import GoZero.C15.Spec
+import GoZero.C15.Repr
 namespace GoZero.C15
 
 open GoZero
 
-def parseValue (tok : String) : Option Node :=
+/-- a value token `<kind>:<text of the value>`; the repr is computed by the MODEL of lang.Repr -/
+def parseTyped (tok : String) : Option GoVal :=
   match tok.splitOn ":" with
-  | kind :: rest@(_ :: _) =>
-    if kind ∈ ["s", "i", "j", "t", "p", "u", "o", "e", "x", "f", "g", "b", "z"] then some { kind := kind, repr := ":".intercalate rest } else none
+  | kind :: rest@(_ :: _) => parseGoVal kind (":".intercalate rest)
   | _ => none
+
+def parseValue (tok : String) : Option Node := (parseTyped tok).map GoVal.toNode
+
+def hexOf (s : String) : String :=
+  if s = "" then "-" else
+  String.ofList (s.toUTF8.toList.flatMap fun b =>
+    [Nat.digitChar (b.toNat / 16), Nat.digitChar (b.toNat % 16)])
+
+/-- the `repr` operation: lang.Repr of a list of values. Correspondence: the model's `reprOf`. Monitor: two values
+that are different nodes for the specification (different numbers, different texts: the model's `reprOf` differs,
+`reprOf_numeric_eq_iff`) must not get the same Repr, or one would evict / remove the other in the ring. -/
+def checkReprs (r : Report) (sec line : Nat) (toks : List String) (vals : List GoVal) (impl : List String) : Report := Id.run do
+  let mut r := r
+  let mine := vals.map fun v => hexOf (reprOf v)
+  if mine ≠ impl then r := r.mismatch sec line (",".intercalate mine) (",".intercalate impl)
+  let rows := toks.zip (vals.zip impl)
+  let mut i := 0
+  for (ta, va, ia) in rows do
+    i := i + 1
+    for (tb, vb, ib) in rows.drop i do
+      if ia == ib && !sameSlot va vb then
+        r := r.violation sec line s!"repr-alias: lang.Repr gives the same text (hex {ia}) for {ta} and {tb}: two different nodes would share one ring slot (one evicts / removes the other)"
+      if sameSlot va vb && ta ≠ tb then r := r.addCover "repr-same-slot-by-design"
+  for v in vals do
+    r := r.addCover s!"repr-case-{v.deref.caseName}"
+    if v.stringerText.isSome then r := r.addCover "repr-stringer-first"
+    match v.math with
+    | some x =>
+      if x < 0 then r := r.addCover "repr-negative"
+      if x ≥ 9223372036854775808 then r := r.addCover "repr-above-maxint64"
+      if x = 18446744073709551615 then r := r.addCover "repr-maxuint64"
+      if x = -9223372036854775808 then r := r.addCover "repr-minint64"
+    | none => pure ()
+  return r
 
 def parseOp : List String → Option Op
   | ["add", n] => do pure (.add (← parseValue n))
@@ -41,7 +76,7 @@ def parseOutcome (tok : String) : Option Outcome :=
 def showOutcome : Outcome → String
   | .none => "-"
   | .panic => "PANIC"
-  | .node n => n.kind ++ ":" ++ n.repr
+  | .node n => nodeToken n
 
 def hasherOf (hash : String) (mod : Nat) : Hasher :=
   let f : String → Nat :=
@@ -60,7 +95,7 @@ def digestRing (ring : List (Nat × List Node)) : UInt64 :=
   sorted.foldl (fun d p =>
     let d := mix d p.1.toUInt64
     let d := p.2.foldl (fun d n =>
-      mix ((bytesOf (n.kind ++ ":" ++ n.repr)).foldl (fun d b => mix d b.toUInt64) d) 255) d
+      mix ((bytesOf (nodeToken n)).foldl (fun d b => mix d b.toUInt64) d) 255) d
     mix d 254) 14695981039346656037
 
 /-- model-side rendering of a mutating operation's observation (without `f=`) -/
@@ -141,7 +176,8 @@ def parseOutcomes (s : String) : Option (List Outcome) :=
 
 /-- the monitor on the answers after a mutating operation (shared by plain, gated and storm lines) -/
 def checkAnswers (r : Report) (sec line : Nat) (hash opS : String) (op : Op) (probes : List Node)
-    (m : SMap) (wasMember isMember collBefore collAfter : Bool) (prev g f : List Outcome) : Report := Id.run do
+    (m : SMap) (wasMember isMember collBefore collAfter : Bool) (prev g f : List Outcome)
+    (alone : List Bool := []) : Report := Id.run do
   let mut r := r
   for (k, o) in probes.zip g do
     if o == .panic then
@@ -158,12 +194,32 @@ def checkAnswers (r : Report) (sec line : Nat) (hash opS : String) (op : Op) (pr
       if !disruptOk op.repr wasMember isMember o o' then
         r := r.violation sec line s!"disruption: Get {showOutcome (.node k)} moved {showOutcome o} -> {showOutcome o'} by [{opS}]"
   else
-    r := r.addCover s!"disruption-skipped-collision-{hash}"
+    -- a ring with colliding virtual nodes: minimal disruption still holds for every probe served by an unshared
+    -- virtual node before or after the operation (`monitor_sound_disruption_local`)
+    r := r.addCover s!"disruption-local-collision-{hash}"
+    for (k, o, o', a) in probes.zip (prev.zip (g.zip alone)) do
+      if a then
+        r := r.addCover "disruption-checked-local"
+        if o != o' then r := r.addCover "probe-moved-local"
+        if !disruptOk op.repr wasMember isMember o o' then
+          r := r.violation sec line s!"disruption: Get {showOutcome (.node k)} moved {showOutcome o} -> {showOutcome o'} by [{opS}] (ring with collisions; this key is served by an unshared virtual node)"
+      else
+        r := r.addCover "disruption-skipped-probe-on-shared-virtual-node"
   if g.any (fun o => match o with | .node _ => true | _ => false) then pure () else r := r.addCover "all-none"
   return r
 
 def kindCover (r : Report) (pre : String) (n : Node) : Report :=
-  if n.kind ∈ ["f", "g", "b", "z", "u", "o", "e", "x"] then r.addCover s!"{pre}-kind-{n.kind}" else r
+  let r := if n.kind ∈ ["f", "g", "b", "z", "u", "o", "e", "x", "a", "h", "w", "n", "c", "k", "m", "d", "r", "y", "q"] then r.addCover s!"{pre}-kind-{n.kind}" else r
+  let r := if n.kind ∈ ["i", "j", "a", "h", "w", "d", "r"] && n.repr.startsWith "-" then r.addCover s!"{pre}-negative-integer" else r
+  let r := if n.repr ∈ ["18446744073709551615", "9223372036854775808", "-9223372036854775808", "NaN", "+Inf", "-Inf", "<nil>", ""] then
+    r.addCover s!"{pre}-extreme-{n.repr}" else r
+  r
+
+/-- two members with virtual nodes whose numbers differ by exactly 2^8, 2^16, 2^32 or 2^64: what a `Repr` that
+confuses signedness or width would put into one slot -/
+def hasTwins (m : SMap) : Bool :=
+  let nums := m.filterMap fun p => if p.2 > 0 && p.1.kind ∈ ["i", "j", "a", "h", "w", "n", "c", "k", "m", "u", "d", "r"] then p.1.repr.toInt? else none
+  nums.any fun x => nums.any fun y => x - y ∈ [(256 : Int), 65536, 4294967296, 18446744073709551616]
 
 /-- a ring as cache.New / kv.NewStore build it: NewConsistentHash, AddWithWeight(node, conf.Weight) in order -/
 def parseConf (kind : String) (t : String) : Option (List Op) :=
@@ -176,6 +232,8 @@ def runUserSection (r : Report) (sec : Section) (user : String) (probes : List N
   let H := hasherOf "murmur" 1
   let kind := if user = "cache" then "t" else "p"
   let mut r := r.addCover s!"user-{user}"
+  -- the previous instance of this section: (membership as sorted (address, virtual nodes), conf, dispatch addresses)
+  let mut prevBuild : Option (List (String × Nat) × String × List String) := none
   for l in sec.lines do
     r := { r with ops := r.ops + 1 }
     match l.op with
@@ -203,6 +261,17 @@ def runUserSection (r : Report) (sec : Section) (user : String) (probes : List N
         match (kv? l.obs "g").map (fun g => g.splitOn ",") with
         | none => r := r.mismatch sec.idx l.idx "bad-obs" impl
         | some addrs =>
+          -- multi-instance: two instances built from the same membership (other order of the entries) dispatch alike
+          let norm := ((m.map fun p => (p.1.repr, p.2)).mergeSort fun a b => a.1 ≤ b.1)
+          match prevBuild with
+          | some (pm, pconf, paddrs) =>
+            if pm == norm && pconf ≠ conf && ops.length > 1 && (pconf.splitOn ",").length > 1 then
+              r := r.addCover "build-same-members-other-order"
+              for (k, a, b) in probes.zip (paddrs.zip addrs) do
+                if a ≠ b then
+                  r := r.violation sec.idx l.idx s!"history-dependent: {user} dispatch of {showOutcome (.node k)} goes to {b} but to {a} on an instance built from the same nodes and weights in another order, conf=[{conf}] other=[{pconf}]"
+          | none => pure ()
+          prevBuild := some (norm, conf, addrs)
           for (k, a) in probes.zip addrs do
             let o : Outcome := if a = "-" then .none else if a = "PANIC" then .panic else .node { kind := kind, repr := a }
             if !direct && !memberOk m o then
@@ -229,11 +298,19 @@ def runSection (r : Report) (sec : Section) : Report := Id.run do
   let mut prev : List Outcome := probes.map fun _ => .none
   r := r.addCover s!"hash-{hash}"
   for p in probes do r := kindCover r "probe" p
+  if probes.any (fun p => p.kind = "r") then return r.mismatch sec.idx 0 "bad-cfg" "pointer probe"
   for l in sec.lines do
     r := { r with ops := r.ops + 1 }
     match l.op with
+    | ["repr", vs] =>
+      let toks := vs.splitOn ","
+      match toks.mapM parseTyped with
+      | none => r := r.mismatch sec.idx l.idx "bad-op" (joinSp l.op)
+      | some vals =>
+        r := r.addCover "repr-op"
+        r := checkReprs r sec.idx l.idx toks vals ((joinSp l.obs).splitOn ",")
     | ["get", k] =>
-      match parseValue k with
+      match (parseValue k).bind (fun n => if n.kind = "r" then none else some n) with   -- `%v` of a pointer is an address
       | none => r := r.mismatch sec.idx l.idx "bad-op" (joinSp l.op)
       | some key =>
         let out := get H s key
@@ -345,6 +422,8 @@ def runSection (r : Report) (sec : Section) : Report := Id.run do
         m := specStep s.replicas m op
         let isMember := m.cnt op.repr > 0
         let collAfter := noCollision H m
+        if hasTwins m then r := r.addCover "ring-has-twos-complement-twins"
+        if (mPre.find op.repr).any (fun p => p.1 != opNode op) then r := r.addCover "op-on-slot-held-by-other-value"
         let segs := if gated then splitBar l.obs else [l.obs]
         let finalObs := (segs.getLast?.getD []).filter (· ≠ "DATARACE")
         if l.obs.contains "DATARACE" then
@@ -393,7 +472,8 @@ def runSection (r : Report) (sec : Section) : Report := Id.run do
           if g.length ≠ probes.length ∨ f.length ≠ probes.length then
             r := r.mismatch sec.idx l.idx "bad-obs" "probe count"
           else
-            r := checkAnswers r sec.idx l.idx hash opS op probes m wasMember isMember collBefore collAfter prev g f
+            let alone := if collBefore && collAfter then [] else probes.map fun p => landsAlone H sPre s p
+            r := checkAnswers r sec.idx l.idx hash opS op probes m wasMember isMember collBefore collAfter prev g f alone
             prev := g
         | _, _ => r := r.mismatch sec.idx l.idx "bad-obs" (joinSp l.obs)
   return r
